@@ -259,7 +259,13 @@ impl<'w> Judge<'w> {
         // (one specific, recorded finding) only if the input really carries unknown
         // fields AND the plain twin type agrees between its two legs on these bytes.
         if let Level::Gen(name) = &case.level {
-            if let Some(plain) = name.strip_prefix("keep::") {
+            let (callp, bare) = match name.strip_prefix("call::") {
+                Some(b) => ("call::", b),
+                None => ("", name.as_str()),
+            };
+            if let Some(plain) = bare.strip_prefix("keep::") {
+                let plain_level = format!("{}{}", callp, plain);
+                let plain_level = plain_level.as_str();
                 let reclass = v.iter().any(|x| matches!(x.class.as_str(), "value_mismatch" | "mem_ok_async_err" | "mem_err_async_ok"));
                 // unknown fields present: either the retained list of the decoded value is
                 // non-empty, or an independent parse of the input finds undeclared fields
@@ -270,7 +276,7 @@ impl<'w> Judge<'w> {
                     }
                     _ => false,
                 };
-                if reclass && (retained || self.input_has_unknown_fields(case, plain)) && self.plain_twin_agrees(case, plain) {
+                if reclass && (retained || self.input_has_unknown_fields(case, plain)) && self.plain_twin_agrees(case, plain_level) {
                     for x in v.iter_mut() {
                         if matches!(x.class.as_str(), "value_mismatch" | "mem_ok_async_err" | "mem_err_async_ok") {
                             x.detail = format!("[{}] {}", x.class, x.detail);
@@ -294,8 +300,13 @@ impl<'w> Judge<'w> {
         let mut found = false;
         let sc = &self.w.schema;
         let _ = std::panic::catch_unwind(std::panic::AssertUnwindSafe(|| {
+            let is_call = matches!(&case.level, Level::Gen(n) if n.starts_with("call::"));
             crate::with_mem_proto!(case.proto, &mut buf, |p| {
-                let _ = walk_declared(sc, &mut p, &crate::corpus_def::Ty::Struct(def.name), &mut found, 0);
+                use pilota::thrift::TInputProtocol;
+                // the service-call flow starts with the message envelope
+                if !is_call || p.read_message_begin().is_ok() {
+                    let _ = walk_declared(sc, &mut p, &crate::corpus_def::Ty::Struct(def.name), &mut found, 0);
+                }
             })
         }));
         found
